@@ -61,7 +61,8 @@ def synthetic_stream(r, n: int) -> tuple[list[tokenize.TokenInfo], str]:
     for _ in range(n):
         k = r.choice(kinds)
         if k == T.ERRORTOKEN:
-            s = r.choice([" ", "\t", "$", "?"])
+            # whitespace of every kind str.isspace() knows (dropped), and visible error tokens (kept)
+            s = r.choice([" ", "\t", "\x0c", "  ", " \t", "\t\x0c ", "\x0b", "$", "?", " $", "\u00a0"])
         elif k in (T.NEWLINE, tokenize.NL):
             s = "\n"
         elif k == tokenize.COMMENT:
